@@ -1307,8 +1307,8 @@ def tasks(tier):
     out["toy_and_fixed_generators"] = (run_toys, {})
     for (NI, S, cover) in (((2, 1, True), (3, 1, True), (4, 1, True), (3, 2, False)) if q else ((2, 1, True), (3, 1, True), (4, 1, True), (6, 1, True), (3, 2, False), (5, 3, False))):
         out[f"BinPack.RandomGenerator[items{NI},same{S}].split_step"] = (run_binpack_step, {"NI": NI, "S": S, "cover": cover})
-    out["BinPack.RandomGenerator[bounded]"] = (run_binpack_bounded, {"cfgs": ((2, 3, 1), (6, 10, 2), (20, 80, 5)) if q else ((2, 3, 1), (3, 4, 1), (6, 10, 2), (20, 80, 5), (40, 100, 5)),
-                                                                      "nkeys": 50 if q else 300})
+    out["BinPack.RandomGenerator[bounded]"] = (run_binpack_bounded, {"cfgs": ((2, 3, 1), (6, 10, 2), (20, 80, 5), (12, 40, 8)) if q else ((2, 3, 1), (3, 4, 1), (6, 10, 2), (20, 80, 5), (12, 40, 8), (40, 100, 5)),
+                                                                      "nkeys": 200 if q else 1000})
     # ---- 5. Connector random walk
     for (G, A, n, sym) in (((3, 4, 300, True), (4, 6, 300, False), (10, 10, 600, False)) if q else ((3, 4, 1000, True), (4, 6, 1000, True), (10, 10, 2000, False), (6, 3, 1000, False))):
         out[f"Connector.RandomWalkGenerator[{G}x{G}a{A}]"] = (run_connector_randomwalk, {"G": G, "A": A, "nkeys": n, "symbolic": sym})
